@@ -1,6 +1,10 @@
 #!/usr/bin/env python3
 """validate.py <unit> <patch-file-or-> <edits.json>   (dev validation helper of units ndstore / zarrevents)
 
+ndstore today (the draw-arrays finding is fixed in /repo by 7d2d688; the open finding is the write path):
+    python3 validate.py ndstore finding_set_value_string.patch validation_edits.json > validation_result.txt
+edits B*/H* = new_trace (declared type and shape), W*/HW* = write path (set_value, push_param / push_draw, record_sample).
+
 Same idea as tools/mutest.py (edit keys: name, file, old, new, expect, count = expected number of occurrences of old, nth = replace only that occurrence), but on a PATCHED scratch worktree (the unit must be green to start with):
   1. git worktree of /repo HEAD, `git apply <patch>` (the candidate fix of the finding)
   2. baseline run (must verify), one `ensures false` / `assert(false)` vacuity mutant per contract
